@@ -399,17 +399,21 @@ def rule_wrap(ctx):
     sb = m.classes['scbuiltin']
     un = sb.methods['unop']
     inner = [n for n in ast.walk(un.node) if isinstance(n, ast.FunctionDef) and n is not un.node]
-    ok = len(inner) == 1 and [norm(s) for s in inner[0].body] == ["if hasattr(x, '_compose_unop'): return x._compose_unop(func)", 'return func(x)']
-    ctx.ob('C15.wrap', f'{un.fq}:dispatch', ok, 'unary wrapper: operand hook, else kernel', un.node, m)
+    ok = len(inner) == 1 and [norm(s) for s in inner[0].body] == ["if hasattr(x, '_compose_unop'): return x._compose_unop(scbuiltin_)", 'return func(x)']
+    ctx.ob('C15.wrap', f'{un.fq}:dispatch', ok, 'unary wrapper: operand hook (handed the wrapper itself, so that nested operands are dispatched again), else kernel', un.node, m)
     bn = sb.methods['binop']
     inner = [n for n in ast.walk(bn.node) if isinstance(n, ast.FunctionDef) and n is not bn.node]
-    want = ["if hasattr(a, '_compose_binop'): return a._compose_binop(func, b)", "if hasattr(b, '_rcompose_binop'): return b._rcompose_binop(func, a)", 'return func(a, b)']
+    want = ["if hasattr(a, '_compose_binop'): return a._compose_binop(scbuiltin_, b)", "if hasattr(b, '_rcompose_binop'): return b._rcompose_binop(scbuiltin_, a)", 'return func(a, b)']
     ok = len(inner) == 2 and all([norm(s) for s in i.body] == want for i in inner)
     ctx.ob('C15.wrap', f'{bn.fq}:dispatch', ok, f'binary wrapper (both variants) must be {want}', bn.node, m)
     na = sb.methods['narop']
     inner = [n for n in ast.walk(na.node) if isinstance(n, ast.FunctionDef) and n is not na.node]
-    ok = len(inner) == 1 and [norm(s) for s in inner[0].body] == ["if hasattr(x, '_compose_narop'): return x._compose_narop(func, *args)", 'return func(x, *args)']
+    ok = len(inner) == 1 and [norm(s) for s in inner[0].body] == ["if hasattr(x, '_compose_narop'): return x._compose_narop(scbuiltin_, *args)", 'return func(x, *args)']
     ctx.ob('C15.wrap', f'{na.fq}:dispatch', ok, 'n-ary wrapper: first operand hook, else kernel', na.node, m)
+    later = any(isinstance(t, ast.If) and 'args' in norm(t.test) for i in inner for t in ast.walk(i))
+    ctx.ob('C15.wrap', f'{na.fq}:reflected', later,
+           'the n-ary wrapper looks at its first operand only: with a plain number first and a function, stream, pattern or list among the '
+           'other operands (bi.clip(5, f, 10), bi.clip(1, [0, 1], 5)) the kernel is applied to the unevaluated operand', na.node, m)
     for f in (un, bn, na):
         ok = 'scbuiltin_.__name__ = func.__name__' in full(f.node) and full(f.node).rstrip().endswith('return scbuiltin_')
         ctx.ob('C15.wrap', f'{f.fq}:keeps-name', ok, 'the wrapper must keep the kernel __name__ (special-index lookup uses it)', f.node, m)
@@ -443,6 +447,8 @@ def run(ctx):
 
 
 MUTANTS = [
+    dict(rule='C15.wrap', name='unary wrapper hands the raw kernel to the operand hook (fix reverted)', file='sc3/base/builtins.py',
+         old="                return x._compose_unop(scbuiltin_)", new="                return x._compose_unop(func)"),
     dict(rule='C15.hooks', name='list_unop does not recurse into nested rows', file='sc3/base/utils.py',
          old="            return t(list_unop(op, i, type(i)) for i in a)\n", new="            return t(op(i) for i in a)\n"),
     dict(rule='C15.hooks', name='list_sum skips the first item', file='sc3/base/utils.py',
@@ -493,8 +499,8 @@ MUTANTS = [
     dict(rule='C15.hooks', name='pattern reflected hook keeps order', file='sc3/seq/pattern.py',
          old="        return Pbinop(selector, other, self)", new="        return Pbinop(selector, self, other)"),
     dict(rule='C15.wrap', name='reflected dispatch without swap', file='sc3/base/builtins.py',
-         old="            def scbuiltin_(a, b):\n                if hasattr(a, '_compose_binop'):\n                    return a._compose_binop(func, b)\n                if hasattr(b, '_rcompose_binop'):\n                    return b._rcompose_binop(func, a)",
-         new="            def scbuiltin_(a, b):\n                if hasattr(a, '_compose_binop'):\n                    return a._compose_binop(func, b)\n                if hasattr(b, '_rcompose_binop'):\n                    return b._compose_binop(func, a)"),
+         old="            def scbuiltin_(a, b):\n                if hasattr(a, '_compose_binop'):\n                    return a._compose_binop(scbuiltin_, b)\n                if hasattr(b, '_rcompose_binop'):\n                    return b._rcompose_binop(scbuiltin_, a)",
+         new="            def scbuiltin_(a, b):\n                if hasattr(a, '_compose_binop'):\n                    return a._compose_binop(scbuiltin_, b)\n                if hasattr(b, '_rcompose_binop'):\n                    return b._compose_binop(scbuiltin_, a)"),
     dict(rule='C15.wrap', name='wrapper loses the kernel name', file='sc3/base/builtins.py',
          old="        scbuiltin_.__name__ = func.__name__  # used to obtain special_index.\n        scbuiltin_.__qualname__ += func.__name__\n        return scbuiltin_\n\n    @staticmethod\n    def binop",
          new="        scbuiltin_.__qualname__ += func.__name__\n        return scbuiltin_\n\n    @staticmethod\n    def binop"),
